@@ -1,14 +1,22 @@
 """C11 — regex validation and comparison helpers agree with compilation and are exact.
 
 Correspondence (real code vs. Lean model through drv_regex):
-  RX_PIPE s Σ     regex.validate(s) and NFA.from_regex(s) — ok / exception class (and #states);
-  RX_LEX s        token stream or exception class (malformed stream: lone braces, non-numeric
-                  bounds, odd white space — only "model = code" is checked there);
-  RX_CMP s₁ s₂ Σ  isequal / issubset / issuperset over an explicit common alphabet.
+  RX_PIPE2 s Σ    regex.validate(s), NFA.from_regex(s) and NFA.from_regex(s, input_symbols=Σ) — ok /
+                  exception class (and #states);
+  RX_POSTFIX s    token streams or exception class (malformed stream: lone braces, odd bounds, odd
+                  white space);
+  RX_CMP s₁ s₂ Σ  isequal / issubset / issuperset over an explicit common alphabet — the driver
+                  EXECUTES the model helpers `Rx.isequal (eqLib …)`, `Rx.issubset (eqLib …) uniLib`,
+                  `Rx.issuperset (eqLib …) uniLib`, the very terms of theorem C11_comparisons_lib
+                  (and cross-checks their answers against a driver-side subset search).
 Property on the real code, independent of the model:
   * for every sequence of documented tokens: validate ok ⇔ the token sequence is in the
-    grammar (a 25-line recursive-descent recogniser written here) ⇔ from_regex succeeds;
+    grammar (a 25-line recursive-descent recogniser written here) ⇔ from_regex succeeds, with
+    the default alphabet AND with an explicit one;
     a failure is a RegexException subclass (InvalidRegexError / LexerError);
+  * for EVERY string (malformed stream) whose brace groups are numeric for int(): validate and
+    from_regex succeed together or raise the same exception class, a RegexException subclass
+    (theorems C11_validate_from_regex_any[_default], C11_lex_error_kind) — e.g. a{2,1}, a{-1,2};
   * isequal / issubset / issuperset = language (in)equality / inclusion of the two ASTs,
     decided exactly by Brzozowski derivatives.
 """
@@ -16,6 +24,7 @@ from __future__ import annotations
 
 import itertools
 import json
+import re
 from typing import List, Optional
 
 import automata.base.exceptions as exceptions
@@ -26,13 +35,18 @@ from harness import rx_common as R
 from harness.common import Ctx, Toks, call, toks
 
 LEVEL = "proof"
-RULE = ("cases = (a) strings that are sequences of the documented tokens ( ) | & ^ * + ? {1,2} . a and blank: every "
-        "sequence of length ≤4 (thorough ≤5), then random longer ones shaped to be nearly valid; (b) malformed strings "
-        "(lone braces, odd bounds, white space) for model=code only; (c) pairs of ASTs rendered to strings compared over "
-        "a common explicit alphabet; non-trivial = (a) ≥3 tokens with at least one parenthesis or operator, "
+RULE = ("cases = (a) strings that are sequences of the documented tokens: every sequence of length ≤3 over the 16 "
+        "texts ( ) | & ^ * + ? {1,2} {0,0} {,} {2,} . a b blank and every sequence of length 4 (thorough 5) over the 12 "
+        "texts ( ) | & ^ * + ? {1,2} . a blank, then random longer ones shaped to be nearly valid — each with the "
+        "default and with an explicit alphabet; (b) malformed strings (lone braces, odd bounds, white space): "
+        "model=code, and for numeric brace groups the agreement / regex-error-type rule on the real code; (c) pairs of "
+        "ASTs rendered to strings compared over a common explicit alphabet (1–7 symbols, incl. 1 , - é 𝒳); "
+        "non-trivial = (a) ≥3 tokens with at least one parenthesis or operator, "
         "(c) both languages non-empty and not both trivial; distinct = distinct strings / pairs")
 ASSUMPTIONS = [
-    "documented tokens only in the property part: symbols, operators, parentheses, {m,n} {m,} {,n} with ASCII decimal bounds, blanks",
+    "documented tokens in the grammar part: symbols, operators, parentheses, {m,n} {m,} {,n} with ASCII decimal bounds, blanks; "
+    "the agreement / error-type rule is also evaluated on arbitrary strings whose brace groups are numeric for int() "
+    "(a lone brace lexed as a symbol and non-numeric bounds are outside the documented syntax: model = code only)",
     "comparisons take an explicit common alphabet (with input_symbols=None each regex infers its own alphabet, F17)",
     "Python re / int() are modelled by hand (trusted)",
 ]
@@ -41,6 +55,9 @@ EXPLANATION = ("C11_* theorems: validate_tokens accepts exactly the token gramma
                "This run ties the model to the code and evaluates the property itself on the real code.")
 
 TOKEN_TEXTS = ["(", ")", "|", "&", "^", "*", "+", "?", "{1,2}", ".", "a", " "]
+# for the short sequences (length ≤3): the other quantifier shapes and a second symbol as well
+TOKEN_TEXTS_WIDE = TOKEN_TEXTS + ["{0,0}", "{,}", "{2,}", "b"]
+EXPLICIT_SIGMA = "abc"          # the explicit alphabet of the validate-vs-compile runs (⊇ the symbols a, b)
 KIND = {"(": "lp", ")": "rp", "|": "bin", "&": "bin", "^": "bin", "*": "post", "+": "post", "?": "post",
         "{1,2}": "post", ".": "atom", "a": "atom", "b": "atom", "{0,0}": "post", "{,}": "post", "{2,}": "post"}
 
@@ -107,6 +124,18 @@ def model_pipe(ctx: Ctx, s: str, sigma):
     return v, c
 
 
+def model_pipe2(ctx: Ctx, s: str, sigma):
+    """validate, from_regex(default alphabet), from_regex(input_symbols=sigma) on the model."""
+    t = Toks(ctx.driver("drv_regex").ask(toks("RX_PIPE2", R.enc_str(s), R.enc_syms(sigma))))
+    t.expect("validate")
+    v = t.res(lambda: None)
+    t.expect("compile")
+    c = t.res(t.int)
+    t.expect("compile_sigma")
+    c2 = t.res(t.int)
+    return v, c, c2
+
+
 def check_tokens(ctx: Ctx, texts: List[str], origin: str):
     """A string that is a sequence of documented tokens."""
     s = "".join(texts)
@@ -114,6 +143,8 @@ def check_tokens(ctx: Ctx, texts: List[str], origin: str):
     rv = call(lambda: rx.validate(s))
     rc = call(lambda: NFA.from_regex(s))
     rcn = ("ok", len(rc[1].states)) if rc[0] == "ok" else rc
+    rcx = call(lambda: NFA.from_regex(s, input_symbols=frozenset(EXPLICIT_SIGMA)))
+    rcxn = ("ok", len(rcx[1].states)) if rcx[0] == "ok" else rcx
     ctx.stat(origin)
     gram = (not kinds) or in_grammar(kinds)
     ctx.stat("in_grammar" if gram else "not_in_grammar")
@@ -127,7 +158,10 @@ def check_tokens(ctx: Ctx, texts: List[str], origin: str):
     if (rv[0] == "ok") != (rc[0] == "ok"):
         wrong.append(f"validate says {rv[0] if rv[0] == 'ok' else rv[1]} but from_regex says "
                      f"{rc[0] if rc[0] == 'ok' else rc[1]}")
-    for name, r in (("validate", rv), ("from_regex", rc)):
+    if (rv[0] == "ok") != (rcx[0] == "ok"):
+        wrong.append(f"validate says {rv[0] if rv[0] == 'ok' else rv[1]} but from_regex(input_symbols={EXPLICIT_SIGMA!r}) "
+                     f"says {rcx[0] if rcx[0] == 'ok' else rcx[1]}")
+    for name, r in (("validate", rv), ("from_regex", rc), (f"from_regex(input_symbols={EXPLICIT_SIGMA!r})", rcx)):
         if r[0] == "err":
             ctx.stat("err_" + r[1])
             if r[1] not in REGEX_ERRORS:
@@ -137,9 +171,10 @@ def check_tokens(ctx: Ctx, texts: List[str], origin: str):
     if wrong:
         ctx.prop_fail(f"regex {s!r}: " + "; ".join(wrong), dict(case, kind="tokens"), None)
         return
-    mv, mc = model_pipe(ctx, s, None)
-    if (rv, rcn) != (mv, mc):
-        ctx.corr_diff("RX_PIPE", case, dict(validate=rv, compile=rcn), dict(validate=mv, compile=mc))
+    mv, mc, mcx = model_pipe2(ctx, s, sorted(EXPLICIT_SIGMA))
+    if (rv, rcn, rcxn) != (mv, mc, mcx):
+        ctx.corr_diff("RX_PIPE2", case, dict(validate=rv, compile=rcn, compile_sigma=rcxn),
+                      dict(validate=mv, compile=mc, compile_sigma=mcx))
     if ctx.evaluations % 4001 == 11:
         ctx.sample(dict(regex=s, validate=rv, compile=rcn, in_grammar=gram))
 
@@ -154,9 +189,35 @@ def isinstance_regex_error(s: str) -> bool:
     return True
 
 
+_QUANT_RE = re.compile(r"\{(.*?),(.*?)\}")
+
+
+def int_ok(text: str) -> bool:
+    try:
+        int(text)
+        return True
+    except ValueError:
+        return False
+
+
+def has_bad_bound(s: str) -> bool:
+    """Some brace group of `s` has a non-empty bound text that int() rejects (the hypothesis
+    `HasBadBound` of the theorems, evaluated with the real `re` and `int`): the quantifier pattern is
+    tried at EVERY opening brace, not only where the lexer happens to arrive."""
+    for i, ch in enumerate(s):
+        if ch == "{":
+            m = _QUANT_RE.match(s, i)
+            if m and any(g and not int_ok(g) for g in m.groups()):
+                return True
+    return False
+
+
 def check_malformed(ctx: Ctx, s: str, origin: str):
-    """Strings outside the documented token set: model = code only (classes of exceptions,
-    token streams); and nothing but an exception may happen."""
+    """Arbitrary strings (lone braces, odd bounds, white space).  Model = code on every one; and
+    — theorems C11_validate_from_regex_any_default / C11_lex_error_kind — on the real code:
+    unless a lone brace is lexed as a symbol (outside the documented syntax: validate ok,
+    from_regex InvalidSymbolError) validate and from_regex succeed together or raise the same class;
+    unless a brace group has a non-numeric bound that class is a RegexException subclass."""
     from harness.ops.C10 import stage_model, stage_observe
     from automata.regex import parser as rxparser
     ctx.stat(origin)
@@ -167,11 +228,37 @@ def check_malformed(ctx: Ctx, s: str, origin: str):
     for r in (rv, rc):
         if r[0] == "err":
             ctx.stat("malformed_err_" + r[1])
-    mv, mc = model_pipe(ctx, s, None)
     case = dict(regex=s)
+    so = stage_observe(s, frozenset(s) - rxparser.RESERVED_CHARACTERS)
+    # --- property on the real code
+    lexed = so["lex"][1] if so["lex"][0] == "ok" else []
+    lone_brace = any(t in ("L:123", "L:125") for t in lexed)
+    numeric = not has_bad_bound(s)
+    ctx.stat("malformed_numeric_bounds" if numeric else "malformed_nonnumeric_bound")
+    wrong = []
+    if lone_brace:
+        ctx.stat("malformed_lone_brace_symbol")
+    else:
+        if (rv[0] == "ok") != (rc[0] == "ok"):
+            wrong.append(f"validate says {rv[0] if rv[0] == 'ok' else rv[1]} but from_regex says "
+                         f"{rc[0] if rc[0] == 'ok' else rc[1]}")
+        elif rv[0] == "err" and rv[1] != rc[1]:
+            wrong.append(f"validate raises {rv[1]} but from_regex raises {rc[1]}")
+    if numeric:
+        for name, r in (("validate", rv),) + ((("from_regex", rc),) if not lone_brace else ()):
+            if r[0] == "err" and r[1] not in REGEX_ERRORS:
+                wrong.append(f"{name} raises {r[1]}, not a RegexException, although every brace group is numeric")
+        if rv[0] == "err" and not isinstance_regex_error(s):
+            wrong.append("validate's exception is not an instance of RegexException")
+    elif rv[0] == "err" and rv[1] not in REGEX_ERRORS | {"ValueError"}:
+        wrong.append(f"validate raises {rv[1]}: neither a RegexException nor the ValueError of int()")
+    if wrong:
+        ctx.prop_fail(f"regex {s!r}: " + "; ".join(wrong), dict(case, kind="string"), None)
+        return
+    # --- correspondence
+    mv, mc = model_pipe(ctx, s, None)
     if (rv, rcn) != (mv, mc):
         ctx.corr_diff("RX_PIPE", case, dict(validate=rv, compile=rcn), dict(validate=mv, compile=mc))
-    so = stage_observe(s, frozenset(s) - rxparser.RESERVED_CHARACTERS)
     sm = stage_model(ctx, s)
     if so != sm:
         ctx.corr_diff("RX_POSTFIX", case, so, sm)
@@ -208,11 +295,15 @@ def check_cmp(ctx: Ctx, e1, e2, sigma: str, origin: str, style_rng=None):
     line = ctx.driver("drv_regex").ask(toks("RX_CMP", R.enc_str(s1), R.enc_str(s2), R.enc_syms(sorted(sigma))))
     t = Toks(line)
     k = t.next()
-    if k == "budget":
-        ctx.stat("cmp_model_budget")     # driver-side determinisation limit: model side skipped
-        return
     if k == "ok":
+        # answers of the model helpers isequal / issubset / issuperset (eqLib = C09's ==, uniLib = C08's union)
         mod = (("ok", bool(t.int())), ("ok", bool(t.int())), ("ok", bool(t.int())))
+        t.expect("chk")
+        chk = t.next()
+        ctx.stat("cmp_crosscheck_" + chk)
+        if chk == "differ":
+            # the verified helpers and the driver-side subset search disagree on the same model NFAs
+            ctx.corr_diff("RX_CMP_crosscheck", case, real, dict(model_helpers=mod, line=line))
     else:
         c = t.next()
         mod = (("err", c),) * 3
@@ -223,7 +314,10 @@ def check_cmp(ctx: Ctx, e1, e2, sigma: str, origin: str, style_rng=None):
 MALFORMED_CORPUS = [" ", "", "\t", "a{", "a}", "{", "}", "{}", "{,}", "a{,}", "a{1}", "a{1,2", "a{x,1}", "a{1,x}", "a{-1,2}",
                     "a{2,1}", "a{+1,2}", "a{1,2,3}", "a{}b,c}", "a{ 1,2 }", "a{1_0,1_1}", "a{1__0,}", "a{_1,}", "a{1_,}",
                     "a{\x1c1,}", "a{\xa01,2 }", "a\nb", "a\x0bb", "a\x1cb", "a\xa0b", "a　b", "a{1\n,2}", "a{1,2\n}",
-                    "a{,\n},}", "a{0,-0}", "a{-0,0}", "a{00,01}", "a,b", "a{1,2}{", "{1,2}", "({1,2})", "a|{1,2}", "é{1,2}"]
+                    "a{,\n},}", "a{0,-0}", "a{-0,0}", "a{00,01}", "a,b", "a{1,2}{", "{1,2}", "({1,2})", "a|{1,2}", "é{1,2}",
+                    # numeric but ill-ordered / negative bounds: InvalidRegexError from validate AND from_regex
+                    "a{3,2}", "a{-1,}", "a{,-1}", "a{10,9}", "a{ 2 , 1 }", "{2,1}", "(a|b){007,6}", "a{2,1}{x,1}", "a{x,1}{2,1}",
+                    "a{1,2}{2,1}", "a{-2,-1}", "a{ 1 ,\t2 }", "a{ ,2}", "a{1, }", "1{1,1}1", ",{,1},"]
 # not in the corpus on purpose: "a{１,２}" — Python's int() also accepts non-ASCII decimal digits, the model
 # does not (ASSUMPTIONS); such bounds are outside the documented syntax.
 
@@ -248,9 +342,9 @@ def rand_nearly_valid(rng, max_len: int) -> List[str]:
         if r < 0.4 and texts:
             del texts[rng.randrange(len(texts))]
         elif r < 0.8:
-            texts.insert(rng.randrange(len(texts) + 1), rng.choice(TOKEN_TEXTS))
+            texts.insert(rng.randrange(len(texts) + 1), rng.choice(TOKEN_TEXTS_WIDE))
         elif texts:
-            texts[rng.randrange(len(texts))] = rng.choice(TOKEN_TEXTS)
+            texts[rng.randrange(len(texts))] = rng.choice(TOKEN_TEXTS_WIDE)
     return texts
 
 
@@ -266,10 +360,11 @@ def run(ctx: Ctx):
     # 2. bounded-exhaustive token sequences
     maxlen = 5 if ctx.thorough() else 4
     for k in range(0, maxlen + 1):
-        for texts in itertools.product(TOKEN_TEXTS, repeat=k):
+        for texts in itertools.product(TOKEN_TEXTS_WIDE if k <= 3 else TOKEN_TEXTS, repeat=k):
             check_tokens(ctx, list(texts), f"exhaustive_len{k}")
-    ctx.exhaustive(f"every sequence of length ≤{maxlen} over the 12 token texts ( ) | & ^ * + ? {{1,2}} . a blank: "
-                   "validate vs grammar vs from_regex vs model")
+    ctx.exhaustive("every sequence of length ≤3 over the 16 token texts ( ) | & ^ * + ? {1,2} {0,0} {,} {2,} . a b blank "
+                   f"and every sequence of length 4..{maxlen} over the 12 token texts ( ) | & ^ * + ? {{1,2}} . a blank: "
+                   "validate vs grammar vs from_regex (default alphabet and input_symbols={a,b,c}) vs model")
     # 3. random longer sequences, nearly valid
     for _ in range(ctx.budget(4000, 80000)):
         check_tokens(ctx, rand_nearly_valid(rng, 14), "random_nearly_valid")
@@ -288,23 +383,31 @@ def run(ctx: Ctx):
     pool = R.asts_upto("ab", 1, [(0, 0), (1, 2), (2, None), (None, 1)])
     n_pairs = ctx.budget(1500, 30000)
     for i in range(n_pairs):
-        sigma = rng.choice(["ab", "ab", "abc", "a"])
+        sigma = rng.choice(["ab", "ab", "ab", "abc", "a", "1,", "\u00e9\U0001d4b3", "-a1", "abcde", "ab1,-\u00e9\U0001d4b3"])
+        ctx.stat(f"cmp_alphabet_size_{len(sigma)}")
+        lits = sigma[:2] if sigma[:2] in ("ab", "1,", "\u00e9\U0001d4b3") else sigma[:3]
         r = rng.random()
-        if r < 0.3:
+        if r < 0.3 and sigma.startswith("ab"):
             e1, e2 = rng.choice(pool), rng.choice(pool)
         else:
-            e1 = R.rand_ast(rng, sigma[:2], rng.choice([1, 2, 3]))
+            e1 = R.rand_ast(rng, lits, rng.choice([1, 2, 3]), p_wide=0.15)
             if r < 0.55:
                 e2 = rewrite_equiv(rng, e1)
             elif r < 0.75:
-                e2 = ("alt", e1, R.rand_ast(rng, sigma[:2], 1))      # superset
+                e2 = ("alt", e1, R.rand_ast(rng, lits, 1))      # superset
             else:
-                e2 = R.rand_ast(rng, sigma[:2], rng.choice([1, 2, 3]))
+                e2 = R.rand_ast(rng, lits, rng.choice([1, 2, 3]), p_wide=0.15)
         if R.size(e1) + R.size(e2) > 22:
             continue
         if not (R.lits_of(e1) | R.lits_of(e2)) <= set(sigma):
             sigma = "".join(sorted(set(sigma) | R.lits_of(e1) | R.lits_of(e2)))   # domain: a common alphabet of both
         check_cmp(ctx, e1, e2, sigma, "cmp", rng if rng.random() < 0.3 else None)
+    for key, what in (("cmp_skipped_large_nfa", "an operand compiles to an NFA with more than 40 states"),
+                      ("cmp_oracle_budget", "the derivative oracle for the two ASTs hit its budget"),
+                      ("cmp_crosscheck_budget", "the driver-side cross-check of the model helpers hit its search limit "
+                                                "(the model helpers' answers were still compared with the code)")):
+        if ctx.stats.get(key, 0):
+            ctx.note(f"{ctx.stats[key]} comparison pair(s): {what}" + ("" if key == "cmp_crosscheck_budget" else " — skipped"))
 
 
 def rewrite_equiv(rng, e):
@@ -349,6 +452,8 @@ def replay(ctx: Ctx, path: str) -> int:
         sub, sup = R.ast_cmp(e1, e2, rp["input_symbols"])
         if real != (("ok", sub and sup), ("ok", sub), ("ok", sup)):
             ctx.prop_fail(f"{rp['re1']!r} vs {rp['re2']!r}: helpers {real}, languages eq={sub and sup} sub={sub} sup={sup}", rp, None)
+    elif rp.get("kind") == "string":
+        check_malformed(ctx, rp["regex"], "replay")
     else:
         check_tokens(ctx, rp["tokens"], "replay")
     if ctx.prop_fails:
